@@ -1,0 +1,64 @@
+//go:build verif
+
+// Contracts for package fsm (comment-only; compiled only with the build tag "verif",
+// read by /verif/engine). Properties C01, C02, C03, C09, C10, C12.
+
+package fsm
+
+//@ import key "github.com/jamf/regatta/storage/table/key"
+
+// ---------------------------------------------------------------- key helpers (C12)
+
+// prependByte: [y] ++ x
+//@ func prependByte
+//@   results out
+//@   ensures len(out) == len(x) + 1 && out[0] == y
+//@   ensures forall j int :: 1 <= j && j < len(out) ==> out[j] == old(x[j-1])
+//@   modifies elems(x)
+
+// incrementRightmostByte: big-endian successor. Either some byte is below 0xFF: the last such
+// byte (position p) is incremented in place and everything after it becomes 0; or all bytes are
+// 0xFF and the result is [1, 0, ..., 0] one byte longer.
+//@ func incrementRightmostByte
+//@   results out
+//@   requires len(in) > 0
+//@   ensures [C12.succ] (exists p int :: 0 <= p && p < len(in) && old(in[p]) != 255 && sameSlice(out, in) && out[p] == old(in[p]) + 1 && (forall j int :: p < j && j < len(in) ==> old(in[j]) == 255 && out[j] == 0) && (forall j int :: 0 <= j && j < p ==> out[j] == old(in[j]))) || ((forall j int :: 0 <= j && j < len(in) ==> old(in[j]) == 255) && len(out) == len(in) + 1 && out[0] == 1 && (forall j int :: 1 <= j && j < len(out) ==> out[j] == 0))
+//@   modifies elems(in)
+//@   loop 0 invariant 0 <= i && i < len(in)
+//@   loop 0 invariant forall j int :: i < j && j < len(in) ==> old(in[j]) == 255 && in[j] == 0
+//@   loop 0 invariant forall j int :: 0 <= j && j <= i ==> in[j] == old(in[j])
+
+// a byte slice holding exactly the stored form of (type t, key k)
+//@ pure func isEnc(s []byte, t Int, k []byte) bool = len(s) == 5 + len(k) && s[0] == 1 && s[1] == 0 && s[2] == 0 && s[3] == 0 && s[4] == t && (forall i int :: 0 <= i && i < len(k) ==> s[5+i] == k[i]) && (forall j int :: 5 <= j && j < len(s) ==> s[j] == k[j-5])
+//@ pure func isWildcard(b []byte) bool = len(b) == 1 && b[0] == 0
+// W: the upper bound that the '\0' wildcard stands for = successor of the maximal user key
+// = [1,0,0,0][2][0 x 1019], the smallest key of the next key type.
+//@ pure func isW(s []byte) bool = len(s) == 1024 && s[0] == 1 && s[1] == 0 && s[2] == 0 && s[3] == 0 && s[4] == 2 && (forall j int :: 5 <= j && j < 1024 ==> s[j] == 0)
+
+// Facts established by the package initialiser (var block in fsm.go), assumed here and audited by
+// /verif/replay/drivers/fsm_initfacts (bounded run-time check).
+//@ initfact wildcard : len(wildcard) == 1 && wildcard[0] == 0
+//@ initfact maxUserKey : len(maxUserKey) == 1024 && maxUserKey[0] == 1 && maxUserKey[1] == 0 && maxUserKey[2] == 0 && maxUserKey[3] == 0 && maxUserKey[4] == 1 && (forall j int :: 5 <= j && j < 1024 ==> maxUserKey[j] == 255)
+//@ initfact bufferPool : bufferPool != nil
+
+//@ func encodeUserKey
+//@   results err
+//@   requires dst != nil
+//@   ensures [C12.euk.form] err == nil ==> encodedAt(dst.sdata, old(dst.slen), 1, keyBytes) && dst.slen == old(dst.slen) + 5 + len(keyBytes)
+//@   ensures [C12.euk.keep] forall i int :: 0 <= i && i < old(dst.slen) ==> dst.sdata[i] == old(dst.sdata[i])
+//@   modifies dst.sdata, dst.slen
+
+//@ func mustEncodeKey
+//@   maypanic
+//@   ensures [C12.mek] fresh(result) && isEnc(result, k.KeyType, k.Key)
+//@   modifies nothing
+
+// iterOptionsForBounds: bounds of a user range in the stored key space, in freshly allocated slices
+// (never aliasing the pooled encoding buffers).
+//@ func iterOptionsForBounds
+//@   results opts, err
+//@   ensures [C12.bounds.fresh] err == nil ==> opts != nil && fresh(opts) && fresh(opts.LowerBound) && fresh(opts.UpperBound)
+//@   ensures [C12.bounds.low]   err == nil ==> isEnc(opts.LowerBound, 1, low)
+//@   ensures [C12.bounds.high]  err == nil && !isWildcard(high) ==> isEnc(opts.UpperBound, 1, high)
+//@   ensures [C12.bounds.wild]  err == nil && isWildcard(high) ==> isW(opts.UpperBound)
+//@   modifies nothing
